@@ -187,6 +187,24 @@ def oracle_c16(r, rng, budget, all_steps=False):
                 moved = sc.inputs_of(mv)
                 wage_pair(moved, cents(mvv.get('1040.24', 0.0)), cents(mvv['nc_d-400.19']) if 'nc_d-400.19' in mvv else None,
                           100, f'at AGI {T - 50}: ')
+        # federal income tax withheld on EVERY copy of every payer form (W-2 box 2, 1099 box 4)
+        for form, box in (('w-2', 'box_2'), ('1099-int', 'box_4'), ('1099-div', 'box_4'), ('1099-r', 'box_4')):
+            for n in range(count_of(inputs, form)):
+                key = f'{form}:{n}.{box}'
+                if key == 'w-2:0.box_2' or key not in inputs:
+                    continue
+                delta = rng.choice([1, 99.99, 500])
+                bumped = bump(inputs, key, delta)
+                if bumped is None:
+                    continue
+                var = so.rerun_with(r, file_inputs=bumped)
+                if var['exception'] is None and var['ok']:
+                    pairs += 1
+                    vv = sc.values_of(var)
+                    net1 = cents(vv.get('1040.34', 0.0)) - cents(vv.get('1040.37', 0.0))
+                    want = int((Decimal(str(delta)) * 100).to_integral_value())
+                    if net1 - net0 != want:
+                        probs.append((f'withholding-not-1to1:{form}.{box}', f'federal tax withheld +{delta} on {key} moves refund-minus-owed by {(net1-net0)/100}', {'key': key, 'delta': delta}))
         for delta in rng.sample([0.01, 1, 99.99, 500, 1234.56, 10000], 3):
             var = so.rerun_with(r, file_inputs=bump(inputs, 'w-2:0.box_2', delta))
             if var['exception'] is None and var['ok']:
